@@ -381,3 +381,81 @@ pub fn run_async(s: Subj, src: &mut Scripted<'_>, count: usize, max_polls: usize
         Err(p) => Sess { vals, fin: Fin::Panic(p), consumed },
     }
 }
+
+/// Sans-IO paths used incrementally on ONE stream object: the input becomes available in steps (`avail`: ascending
+/// lengths, the last one the whole input); after each step the reader is called until it asks for more data, and is
+/// called again - same object, same start position - once more bytes are there. `buffered` selects
+/// `read_frame_from_buffer` (a fresh BufferReader over the unconsumed bytes) or the one-shot `read_frame` on a slice.
+/// None for subjects without a per-stream object worth re-using (Header, UniUpgrade).
+pub fn run_incremental(s: Subj, input: &[u8], avail: &[usize], count: usize, buffered: bool) -> Option<Sess> {
+    if matches!(s, Subj::Header | Subj::UniUpgrade) {
+        return None;
+    }
+    let mut vals = vec![];
+    let mut offset = 0usize;
+    let res = guarded(|| {
+        macro_rules! steps {
+            ($br:ident => $read_buf:expr, $sl:ident => $read_slice:expr, $e:ident => $err:expr) => {{
+                let mut fin = Fin::NeedMore;
+                'steps: for &a in avail {
+                    loop {
+                        if vals.len() >= count {
+                            break 'steps;
+                        }
+                        let window = &input[offset..a];
+                        let (r, used) = if buffered {
+                            let mut $br = BufferReader::new(window);
+                            let r = ($read_buf).map(|o| o.map(|f| frame_repr(&f)));
+                            (r, $br.offset())
+                        } else {
+                            let mut $sl: &[u8] = window;
+                            let r = ($read_slice).map(|o| o.map(|f| frame_repr(&f)));
+                            (r, window.len() - $sl.len())
+                        };
+                        match r {
+                            Ok(Some(f)) => {
+                                vals.push(Val::F(f));
+                                offset += used;
+                            }
+                            Ok(None) => {
+                                if buffered && used != 0 {
+                                    fin = Fin::Err(format!("buffered offset moved by {used} on need-more"));
+                                    break 'steps;
+                                }
+                                fin = Fin::NeedMore;
+                                break;
+                            }
+                            Err($e) => {
+                                fin = Fin::Err($err);
+                                break 'steps;
+                            }
+                        }
+                    }
+                }
+                if vals.len() >= count && !matches!(fin, Fin::Err(_)) {
+                    fin = Fin::Done;
+                }
+                fin
+            }};
+        }
+        macro_rules! frames {
+            ($st:expr) => {{
+                #[allow(unused_mut)]
+                let mut st = $st;
+                steps!(br => st.read_frame_from_buffer(&mut br), sl => st.read_frame(&mut sl), c => code_name(c))
+            }};
+        }
+        match s {
+            Subj::Frame => steps!(br => Frame::read_from_buffer(&mut br), sl => Frame::read(&mut sl), e => perr(&e)),
+            Subj::BiRemote => frames!(StreamBiRemoteQuic::accept_bi().upgrade()),
+            Subj::BiLocal => frames!(StreamBiLocalQuic::open_bi().upgrade()),
+            Subj::Control => frames!(control_stream()),
+            Subj::Session => frames!(session_stream()),
+            Subj::Header | Subj::UniUpgrade => unreachable!(),
+        }
+    });
+    Some(match res {
+        Ok(fin) => Sess { vals, fin, consumed: offset },
+        Err(p) => Sess { vals, fin: Fin::Panic(p), consumed: offset },
+    })
+}
